@@ -1,6 +1,7 @@
 package checks
 
 import (
+	"os"
 	"fmt"
 	"math/rand"
 	"sync"
@@ -52,7 +53,7 @@ func (w *c16world) requester(peer string) itemsfetcher.ItemsRequesterFn {
 }
 
 func runC16(c *ev.Ctx) {
-	c.Rule = "scripted real-time scenarios (ArriveTimeout A = 40 ms, slack A/10, forget 50 A) against a started Fetcher with 3 peers and 6 item ids: announcements of the same item by 1-3 peers, suspension switched on/off, items received (NotifyReceived) or losing interest, re-announcements, silences; every 4th scenario is the idle shape: the fetcher sits idle for 2 A, is suspended, gets an announcement and is unsuspended later. The run ends with >= 22 A of silence. " +
+	c.Rule = "scripted real-time scenarios (ArriveTimeout A = 40 ms, slack A/10, forget 50 A) against a started Fetcher with 3 peers and 6 item ids: announcements of the same item by 1-3 peers, suspension switched on/off, items received (NotifyReceived) or losing interest, re-announcements, silences; shape 'stream': an unanswered item re-announced every 0.4 A for 20 A must be retried throughout (no gap above 3 A + 250 ms); shape 'received before fetching': announced while suspended, received before the next tick while the interest filter still lets it through; every 4th scenario is the idle shape: the fetcher sits idle for 2 A, is suspended, gets an announcement and is unsuspended later. The run ends with >= 22 A of silence. " +
 		"Observed: every ItemsRequesterFn call (peer identity is baked into the closure), every OnlyInterested answer, all API call times. Oracle: request(id,P) only if P announced id before and id was returned as interesting before; no request for id later than 3 A + 250 ms after it was received / lost interest unless re-announced; " +
 		"bounded progress: an item that stays interesting and unreceived is requested no later than max(announcement, end of suspension) + 10 A + 250 ms; refuting observation: not requested at all by the end of the >= 20 A window. Timing verdicts need a healthy scheduling canary (<= 100 ms oversleep), otherwise the attempt is inconclusive and retried. " +
 		"non-trivial = distinct scenarios in which a suspension overlaps an announcement"
@@ -187,7 +188,32 @@ func c16Scenario(r *rand.Rand, caseN int) (string, map[string]interface{}) {
 		w.mu.Unlock()
 		step(fmt.Sprintf("interest returns (no new announcement) %v", ids))
 	}
-	if caseN%8 == 2 {
+	streamEnd := time.Duration(-1)
+	if caseN%16 == 5 {
+		// nobody answers the request, and the item keeps being announced again by the peers, several times per timeout,
+		// for 20 timeouts: the retries (one per timeout) must go on all the while
+		announce(peers[0], 1)
+		for k := 0; k < 50; k++ {
+			sleepA(0.4)
+			announce(peers[k%3], 1)
+		}
+		streamEnd = w.now()
+	} else if caseN%16 == 13 {
+		// announced while suspended (stored, not yet fetching), received through another channel before the next tick,
+		// while the application's interest filter still lets it through: only the receipt stops the requests
+		sleepA(1.5) // the start-up tick has passed: the timer is idle until the announcement arms it
+		setSuspend(true)
+		announce(peers[r.Intn(3)], 1)
+		sleepA(0.1 + 0.4*r.Float64())
+		w.mu.Lock()
+		w.gone[1] = w.now()
+		w.mu.Unlock()
+		step("received [1] (interest filter unchanged)")
+		_ = f.NotifyReceived([]interface{}{1})
+		sleepA(0.2)
+		setSuspend(false)
+		overlap = true
+	} else if caseN%8 == 2 {
 		// everything loses interest for several timeouts, then interest returns without an announcement
 		announce(peers[r.Intn(3)], 1)
 		if r.Intn(2) == 0 {
@@ -308,6 +334,28 @@ func c16Scenario(r *rand.Rand, caseN int) (string, map[string]interface{}) {
 			return "item-still-requested-after-received-or-uninteresting", m
 		}
 	}
+	// (d) an unanswered item that keeps being announced is retried all along (stream shape)
+	if streamEnd >= 0 {
+		var ts []time.Duration
+		for _, q := range w.requests {
+			if q.id == 1 && q.t <= streamEnd {
+				ts = append(ts, q.t)
+			}
+		}
+		ts = append(ts, streamEnd)
+		for k := 1; k < len(ts); k++ {
+			if ts[k]-ts[k-1] > 3*c16A+margin {
+				m := desc()
+				m["item"], m["no_request_between_ms"] = 1, []int64{ts[k-1].Milliseconds(), ts[k].Milliseconds()}
+				return "interesting-item-requested-too-late", m
+			}
+		}
+		if len(ts) < 3 {
+			m := desc()
+			m["item"] = 1
+			return "interesting-item-never-requested", m
+		}
+	}
 	// (c) bounded progress for items interesting until the end
 	for id, in := range w.interesting {
 		if !in {
@@ -382,6 +430,9 @@ func c16Scenario(r *rand.Rand, caseN int) (string, map[string]interface{}) {
 			m["item"], m["requested_ms"], m["obligation_from_ms"] = id, tReq.Milliseconds(), tu.Milliseconds()
 			return "interesting-item-requested-too-late", m
 		}
+	}
+	if os.Getenv("VERIF_DEBUG_C16") != "" && caseN%16 == 13 {
+		fmt.Printf("DEBUG case %d: %v\n", caseN, desc())
 	}
 	c16mu.Lock()
 	c16stats["requests_observed"] += int64(len(w.requests))
